@@ -37,7 +37,7 @@ pub fn generate(reg: &Registry, args: &Args) -> Vec<Vec<String>> {
     let mut rng = Rng::new(args.seed ^ 0xC04);
     let mut cases = vec![];
     let mut id = 0usize;
-    let (n_bases, n_random, max_trunc) = if args.thorough() { (10, 120, 400) } else { (3, 16, 40) };
+    let (n_bases, n_random, max_trunc) = if args.thorough() { (12, 150, 400) } else { (4, 30, 48) };
     for (name, t) in reg.iter() {
         let shape = t.shape();
         let header = format!("shape {name} {}", shape.show());
@@ -82,7 +82,7 @@ pub fn generate(reg: &Registry, args: &Args) -> Vec<Vec<String>> {
                 k += step;
             }
             // a few random byte flips of the valid encoding
-            for _ in 0..(if args.thorough() { 30 } else { 6 }) {
+            for _ in 0..(if args.thorough() { 30 } else { 10 }) {
                 if rb.is_empty() {
                     break;
                 }
